@@ -9,11 +9,44 @@
 #include <functional>
 #include <thread>
 
+// C19 (publication): whenever a permutation word of a border node is stored, every slot it lists must already hold
+// its entry (the link_or_value word is not the cleared marker): a reader that sees the new ordering finds the entries
+static std::uint64_t g_early_pub = 0;
+#ifdef YAKUSHIMA_VERIF
+static void pub_post(int kind, int obj, const volatile void* addr, std::uint64_t val, int) {
+    if (kind != yakushima::verif::k_store || obj != yakushima::verif::o_perm) return;
+    static const std::ptrdiff_t off_perm = [] {
+        border_node d;
+        return reinterpret_cast<char*>(&d.get_permutation()) - reinterpret_cast<char*>(&d);
+    }();
+    static const std::ptrdiff_t off_lv = [] {
+        border_node d;
+        return reinterpret_cast<char*>(d.get_lv_at(0)) - reinterpret_cast<char*>(&d);
+    }();
+    char* base = reinterpret_cast<char*>(const_cast<void*>(addr)) - off_perm;
+    const auto* r = vtrack::find(base);
+    if (r == nullptr || !r->live || r->size != sizeof(border_node)) return;      // a local copy of a word, not a node's
+    permutation pm{val};
+    std::size_t n = pm.get_cnk();
+    if (n > 15) return;
+    for (std::size_t i = 0; i < n; ++i) {
+        std::size_t sl = pm.get_index_of_rank(i);
+        if (sl >= 15) continue;
+        auto* lv = reinterpret_cast<link_or_value*>(base + off_lv + static_cast<std::ptrdiff_t>(sl * sizeof(link_or_value)));
+        if (lv->is_cleared()) ++g_early_pub;
+    }
+}
+static yakushima::verif::hooks g_pub_hooks{nullptr, pub_post, nullptr};
+#endif
+
 int main(int argc, char** argv) {
     if (argc < 2) return 2;
     FILE* f = std::fopen(argv[1], "r");
     if (!f) return 2;
     vtrack::enable();
+#ifdef YAKUSHIMA_VERIF
+    yakushima::verif::get() = &g_pub_hooks;
+#endif
     Token token{};
     bool have_token = false;
     std::vector<std::pair<const char*, std::string>> held;   // (address, bytes) of values handed out in this session
@@ -218,6 +251,49 @@ int main(int argc, char** argv) {
                 out << " " << id << ":" << hx(rawv(e.first));
             }
             out << " ]";
+        } else if (op == "iphantom") {
+            // iphantom S L le R re rtl K V : a cursor driven to its end collecting the (node, version) callbacks, then insert K
+            // (absent, inside the interval) and test whether some collected pair went stale (C10: the cursor's node set
+            // gives the guarantee of C06)
+            std::string st = unhex(tk());
+            std::string ls, rs;
+            std::string lt = tk();
+            scan_endpoint le = ep(tk());
+            std::string rt = tk();
+            scan_endpoint re = ep(tk());
+            bool rtl = tk() == "1";
+            std::string k = unhex(tk()), v = unhex(tk());
+            std::string_view lk = keyview(lt, ls), rk = keyview(rt, rs);
+            std::vector<std::pair<node_version64*, node_version64_body>> cbs;
+            auto cb = [&cbs](node_version64* p, node_version64_body b) {
+                cbs.emplace_back(p, b);
+                return false;
+            };
+            iscan_context* ctx = nullptr;
+            void* val = nullptr;
+            status rc = iscan_open(st, lk, le, rk, re, rtl, false, ctx, val, cb);
+            status first = rc;
+            std::size_t nres = 0;
+            while (rc == status::OK && nres < 100000) {
+                ++nres;
+                rc = iscan_next(ctx, val, cb);
+            }
+            if (ctx != nullptr) iscan_close(ctx);
+            status s = (first == status::OK || first == status::OK_SCAN_END) ? status::OK : first;
+            std::pair<char*, std::size_t> g{};
+            bool absent = get<char>(st, k, g) == status::WARN_NOT_EXIST;
+            std::string lks = (le == scan_endpoint::INF) ? std::string() : std::string(lk);
+            bool inl = le == scan_endpoint::INF || k > lks || (k == lks && le == scan_endpoint::INCLUSIVE);
+            bool inr = re == scan_endpoint::INF || k < std::string(rk) || (k == std::string(rk) && re == scan_endpoint::INCLUSIVE);
+            bool cov = s == status::OK && absent && inl && inr;
+            status ps = status::OK;
+            if (cov) ps = put<char>(token, st, k, v.data(), v.size());
+            if (cov && ps == status::OK) want_align[{st, k}] = 1;
+            bool det = false;
+            for (auto& e : cbs)
+                if (e.first->get_stable_version() != e.second) det = true;
+            out << op << " " << s << " n=" << nres << " cov=" << cov << " det=" << (cov ? det : false)
+                << " nvn=" << cbs.size() << " put=" << ps;
         } else if (op == "phantom" || op == "getmiss") {
             // phantom S L le R re max rtl K V : scan collecting node versions, then insert K (absent, inside
             // the covered interval) and test whether some collected (version,node) pair went stale.
@@ -472,6 +548,10 @@ int main(int argc, char** argv) {
         }
         if (op == "put" || op == "rem" || op == "create" || op == "dropst" || op == "destroy" || op == "putinfo") {
             out << " aa=" << (vtrack::g_aligned_allocs.load() - aa0) << " af=" << (vtrack::g_aligned_frees.load() - af0);
+        }
+        if (g_early_pub != 0) {
+            out << " EARLYPUB=" << g_early_pub;
+            g_early_pub = 0;
         }
         std::cout << out.str() << "\n";
     }
